@@ -303,6 +303,8 @@ def main():
             r = run_case(case, base_tmp)
         except Exception as e:
             r = {"id": case.get("id"), "harness_error": "%s: %s\n%s" % (type(e).__name__, e, traceback.format_exc()[-2000:])}
+        r["imageinfo_titles"] = [t for q in r.get("requests", []) if "imageinfo" in (q["p"].get("prop") or "")
+                                 for t in q["p"].get("titles", "").split("|")]
         if brief:
             # request log reduced to what is needed for statistics (full log only in replays)
             r["requests"] = [[q["m"], q["p"].get("action"), q["p"].get("prop"), "continue" if any(k.endswith("continue") for k in q["p"]) else "",
